@@ -28,8 +28,12 @@ TOWERS = [
 def make_config(nt, ns, use_cache=False, repeated_met=False, levels=None, nx=8, sweep=False, timestamps=True):
     from bldfm.config_parser import parse_config_dict
 
-    ustar = [0.30 + 0.07 * i for i in range(ns)]
-    wd = [200.0 + 35.0 * i for i in range(ns)]
+    # the records of a series are NOT in any sorted order (time order is the only order that counts): with three or more
+    # steps the order of the directions is a 3-cycle of the time order, the friction velocities follow another permutation
+    rank_wd = [(i + 1) % 3 + 3 * (i // 3) if 3 * (i // 3) + 2 < ns else i for i in range(ns)]
+    rank_us = [ns - 1 - i if i % 2 == 0 else i for i in range(ns)]
+    ustar = [0.30 + 0.07 * r for r in rank_us]
+    wd = [200.0 + 35.0 * r for r in rank_wd]
     if repeated_met and ns >= 2:
         ustar[-1], wd[-1] = ustar[0], wd[0]
     if sweep:
@@ -321,7 +325,8 @@ def main():
     # the command-line loop (bldfm run config.yaml): towers outer, steps inner, one single run each, runtime settings applied
     nruns += cli_runs(chk, cfg_cache, ref_cache)
     # a direction sweep (only wind_dir varies from step to step) and a series with repeated records, cache off
-    for kind, cfgs in (("sweep", make_config(2, 3, sweep=True)), ("repeated", make_config(2, 3, repeated_met=True)), ("no timestamps", make_config(2, 3, timestamps=False))):
+    for kind, cfgs in (("sweep", make_config(2, 3, sweep=True)), ("repeated", make_config(2, 3, repeated_met=True)), ("no timestamps", make_config(2, 3, timestamps=False)),
+                       ("five steps in no sorted order", make_config(1, 5, sweep=True))):
         rtcfg.NUM_THREADS = 1
         refs_s = references(cfgs)
         for strat in ("serial", "towers", "time", "both"):
